@@ -5,8 +5,13 @@ Protocol (one self-contained case per line, see lean/OFCore/OFCore/Drv/Enm.lean)
     enm enc <names> <container> <items>                   -> OK <owner> <idx> <dec> <str> <re> <reraw> | ERR
     enm sel <names> <container> <items> <how> <positions> -> OK <idx> <dec> <str> | ERR   (decode a selection of the result)
     enm dec <names> <indices> [<dtype>[.0d]]              -> <dec> <str>
+    enm cmp <names> <container> <items> <op> <other>      -> V:<T/F...> | S:<T/F> | R:<list> | RAISE | ERR
+        (an operator of EnumArray applied to the encoded array: eq ne | add mul lt le gt ge and or (forbidden) | repr str;
+         <other>: N | C.own C.twin C.foreign | x:<item> | L.<list|tuple|dtype>:<ints> | B.<str|strarr|mem|none>:<len> |
+         E.own:<indices> E.foreign:<indices>)
 
-<names>: declaration order, comma separated, a name = dot-joined hex code points.
+<names>: declaration order, comma separated, a name = dot-joined hex code points; `<name>~<j>` = an ALIAS: a name bound to the
+         value of the j-th member declared before it (no member of its own; E[alias] is that member).
 <container>: seq.list seq.tuple seq.deque seq.array | int.<dtype>[.strided] | str.arr str.wide str.strided | obj.arr |
              oth.<dtype> | zd.<dtype> (0-d array) | enc.own[.<dtype>] enc.foreign
 <items>: i<int>[.b] s<name> S<name> (numpy.str_) m<k> g<k> f<k> o.<what>   ('-' = empty)
@@ -59,6 +64,34 @@ def read_list(t: str) -> list:
     return [] if t == "-" else t.split(",")
 
 
+class Names(list):
+    """the canonical member names of an enumeration; `decl` = the whole class body in declaration order when it has aliases:
+    a `str` entry declares a member, a `(alias name, j)` entry binds another name to the value of the j-th canonical member"""
+    decl = None
+
+    @property
+    def aliases(self):
+        return [e for e in (self.decl or []) if not isinstance(e, str)]
+
+
+def names_field(names) -> str:
+    decl = getattr(names, "decl", None)
+    if not decl:
+        return show_list(name_tok(s) for s in names)
+    return show_list(name_tok(e) if isinstance(e, str) else f"{name_tok(e[0])}~{e[1]}" for e in decl)
+
+
+def parse_names(field: str) -> Names:
+    decl = []
+    for t in read_list(field):
+        nm, sep, j = t.partition("~")
+        decl.append((tok_name(nm), int(j)) if sep else tok_name(nm))
+    names = Names(e for e in decl if isinstance(e, str))
+    if len(names) != len(decl):
+        names.decl = decl
+    return names
+
+
 def parse_item(t: str):
     """-> (kind, value, sub)"""
     k, rest = t[0], t[1:]
@@ -78,10 +111,12 @@ def parse_item(t: str):
 
 def parse_line(line: str):
     f = line.split()
-    names = [tok_name(t) for t in read_list(f[2])]
+    names = parse_names(f[2])
     if f[1] == "dec":
         return "dec", names, None, [int(t) for t in read_list(f[3])], (f[4] if len(f) > 4 else "uint8")
     items = [parse_item(t) for t in read_list(f[4])]
+    if f[1] == "cmp":
+        return "cmp", names, f[3], items, (f[5], f[6])
     if f[1] == "sel":
         return "sel", names, f[3], items, (f[5], [int(t) for t in read_list(f[6])])
     return "enc", names, f[3], items, None
@@ -93,18 +128,28 @@ def parse_line(line: str):
 _ENUMS: dict = {}
 
 
-def enums_for(names: tuple):
-    """(E, F, G, position of each member of E by identity). F and G have n + 2 members."""
-    hit = _ENUMS.get(names)
+def enums_for(field: str):
+    """(E, F, G, position of each member of E by identity, {member position: an alias name}) for a <names> field.
+    F and G have n + 2 members.  Aliases are declared as Python declares them: a name bound to an already used value."""
+    hit = _ENUMS.get(field)
     if hit is None:
         from openfisca_core import indexed_enums as ie
         if len(_ENUMS) > 64:
             _ENUMS.clear()
+        names = parse_names(field)
         n = len(names)
-        E = ie.Enum(CLS_NAME, {nm: k for k, nm in enumerate(names)})
+        body, k, via = {}, 0, {}
+        for e in (names.decl or list(names)):
+            if isinstance(e, str):
+                body[e] = f"value-{k}"
+                k += 1
+            else:
+                body[e[0]] = f"value-{e[1]}"
+                via.setdefault(e[1], e[0])
+        E = ie.Enum(CLS_NAME, body)
         assert len(E) == n and [m.name for m in E] == list(names)
-        hit = [E, None, None, {id(m): k for k, m in enumerate(E)}]
-        _ENUMS[names] = hit
+        hit = [E, None, None, {id(m): k for k, m in enumerate(E)}, via]
+        _ENUMS[field] = hit
     return hit
 
 
@@ -118,7 +163,7 @@ def _foreign(hit, which: str):
     return hit[slot]
 
 
-def _obj(item, hit):
+def _obj(item, hit, via=False):
     import numpy as np
     k, v, sub = item
     if k == "i":
@@ -126,6 +171,8 @@ def _obj(item, hit):
     if k == "s":
         return np.str_(v) if sub == "np" else v
     if k == "m":
+        if via and v in hit[4]:
+            return hit[0][hit[4][v]]          # the member reached through an alias name: the same object
         return list(hit[0])[v]
     if k in "fg":
         return list(_foreign(hit, k))[v]
@@ -135,7 +182,7 @@ def _obj(item, hit):
             "list": [0]}[sub or "float"]
 
 
-def build_input(cont: str, items: list, hit):
+def build_input(cont: str, items: list, hit, via=False):
     import numpy as np
     from openfisca_core import indexed_enums as ie
     head, _, sub = cont.partition(".")
@@ -144,7 +191,7 @@ def build_input(cont: str, items: list, hit):
         owner = hit[0] if sub == "own" else _foreign(hit, "f")
         return ie.EnumArray(np.array([v for _, v, _ in items], dtype=getattr(np, extra or "uint8")), owner)
     if head == "seq":
-        objs = [_obj(it, hit) for it in items]
+        objs = [_obj(it, hit, via) for it in items]
         if sub == "deque":
             return collections.deque(objs)
         if sub == "array":
@@ -171,7 +218,7 @@ def build_input(cont: str, items: list, hit):
     if head == "obj":
         a = np.empty(len(items), dtype=object)
         for j, it in enumerate(items):
-            a[j] = _obj(it, hit)
+            a[j] = _obj(it, hit, via)
         return a
     if head == "oth":
         n = len(items)
@@ -252,6 +299,76 @@ def positions_of(how: str, length: int, rng: random.Random) -> list:
     raise ValueError(how)
 
 
+CMP_OPS = {
+    "eq": lambda a, b: a == b, "ne": lambda a, b: a != b, "add": lambda a, b: a + b, "mul": lambda a, b: a * b,
+    "lt": lambda a, b: a < b, "le": lambda a, b: a <= b, "gt": lambda a, b: a > b, "ge": lambda a, b: a >= b,
+    "and": lambda a, b: a & b, "or": lambda a, b: a | b,
+}
+FORBIDDEN = ["add", "mul", "lt", "le", "gt", "ge", "and", "or"]
+
+
+def build_operand(tok: str, hit):
+    """the right operand of a comparison (see the module documentation)"""
+    import numpy as np
+    from openfisca_core import indexed_enums as ie
+    E = hit[0]
+    head, _, body = tok.partition(":")
+    kind, _, sub = head.partition(".")
+    if tok == "N":
+        return None
+    if kind == "C":
+        return E if sub == "own" else _foreign(hit, "g" if sub == "twin" else "f")
+    if kind == "x":
+        return _obj(parse_item(body), hit)
+    if kind == "L":
+        vals = [int(t) for t in read_list(body)]
+        if sub in ("", "list"):
+            return vals
+        if sub == "tuple":
+            return tuple(vals)
+        return np.array(vals, dtype=getattr(np, sub))
+    if kind == "B":
+        n = int(body)
+        first = str(E.names[0])
+        if sub == "strarr":
+            return np.array([first] * n, dtype=np.str_)
+        return {"str": [first] * n, "mem": [list(E)[0]] * n, "none": [None] * n}[sub or "str"]
+    if kind == "E":
+        owner = E if sub == "own" else _foreign(hit, "f")
+        return ie.EnumArray(np.array([int(t) for t in read_list(body)], dtype=np.uint8), owner)
+    raise ValueError("bad operand " + tok)
+
+
+def _show_cmp(res) -> str:
+    import numpy as np
+    if isinstance(res, (bool, np.bool_)):
+        return "S:" + ("T" if res else "F")
+    if isinstance(res, np.ndarray) and res.dtype == np.bool_ and res.ndim == 1 and type(res) is np.ndarray:
+        return "V:" + ("".join("T" if b else "F" for b in res.tolist()) or "-")
+    return "ODD:" + type(res).__name__
+
+
+def _show_text(r, how: str, hit) -> str:
+    """the members `repr(array)` shows / the names `str(array)` shows, read back from the text"""
+    E = hit[0]
+    text = repr(r) if how == "repr" else str(r)
+    if how == "repr":
+        if not (text.startswith("EnumArray([") and text.endswith("])")):
+            return "R:?" + text[:40]
+        toks = text[len("EnumArray(["):-2].split()
+        pre = CLS_NAME + "."
+        if not all(t.startswith(pre) for t in toks):
+            return "R:?" + text[:40]
+        pos = {str(nm): k for k, nm in enumerate(E.names)}
+        return "R:" + show_list(pos.get(t[len(pre):], "?") for t in toks)
+    if not (text.startswith("[") and text.endswith("]")):
+        return "R:?" + text[:40]
+    toks = text[1:-1].split()
+    if not all(len(t) >= 2 and t[0] == t[-1] == "'" for t in toks):
+        return "R:?" + text[:40]
+    return "R:" + show_list(name_tok(t[1:-1]) for t in toks)
+
+
 def _indices(arr) -> str:
     import numpy as np
     return show_list(int(v) for v in np.ravel(np.asarray(arr)))
@@ -261,18 +378,33 @@ def impl(case: Case) -> str:
     import numpy as np
     from openfisca_core import indexed_enums as ie
     op, names, cont, items, extra = parse_line(case.line)
-    hit = enums_for(tuple(names))
+    hit = enums_for(case.line.split()[2])
     E = hit[0]
     if op == "dec":
         dt, _, shape = extra.partition(".")
         raw = np.array(items[0] if shape == "0d" else items, dtype=getattr(np, dt))
         arr = ie.EnumArray(raw, E)
         return " ".join(_show_decoded(arr, hit))
-    x = build_input(cont, items, hit)
+    x = build_input(cont, items, hit, bool((case.payload or {}).get("via_alias")))
     try:
         r = E.encode(x)
     except Exception:
         return "ERR"
+    if op == "cmp":
+        how, other = extra
+        if how in ("repr", "str"):
+            if r.possible_values is not E:
+                return "R:~"
+            try:
+                return _show_text(r, how, hit)
+            except Exception:
+                return "RAISE"
+        o = build_operand(other, hit)
+        try:
+            res = CMP_OPS[how](r, o)
+        except Exception:
+            return "RAISE"
+        return _show_cmp(res)
     if op == "sel":
         how, positions = extra
         try:
@@ -292,7 +424,25 @@ def impl(case: Case) -> str:
         reraw = _indices(E.encode(np.asarray(r)))
     except Exception:
         reraw = "ERR"
-    return f"OK {'own' if own else 'foreign'} {_indices(r)} {dec} {st} {re_} {reraw}"
+    idx = _indices(r)
+    # the encoded array must not be a view of the input: overwrite the input array in place and look at the result again
+    if isinstance(x, np.ndarray) and not isinstance(x, ie.EnumArray) and x.ndim == 1 and x.size and x.flags.writeable:
+        try:
+            if x.dtype.kind in "iu":
+                x += 1                         # (wraps around at the limits of the dtype)
+            elif x.dtype.kind == "U":
+                x[...] = ""
+            elif x.dtype.kind == "O":
+                x[...] = None
+        except (TypeError, ValueError):
+            pass
+        if _indices(r) != idx:
+            return f"ALIASED {idx} {_indices(r)}"
+    elif isinstance(x, (list, collections.deque, array.array)) and len(x) > 1:
+        x.reverse()                            # a mutable sequence: reversed in place after the call
+        if _indices(r) != idx:
+            return f"ALIASED {idx} {_indices(r)}"
+    return f"OK {'own' if own else 'foreign'} {idx} {dec} {st} {re_} {reraw}"
 
 
 # --------------------------------------------------------------------------------------
@@ -301,12 +451,14 @@ def impl(case: Case) -> str:
 PRIORITY = ["negative-index", "index-too-large", "unknown-name", "foreign-member", "unsupported-kind"]
 
 
-def _designated(item, n: int, pos: dict):
+def _designated(item, n: int, pos: dict, alias_names=()):
     """index of the member the element designates, or the reason why it designates none"""
     k, v, _ = item
     if k == "i":
         return v if 0 <= v < n else ("negative-index" if v < 0 else "index-too-large")
     if k == "s":
+        if v in alias_names:
+            return "alias-name"
         return pos[v] if v in pos else "unknown-name"
     if k == "m":
         return v
@@ -341,8 +493,44 @@ def oracle(case: Case, out: str):
             if f[4] != show_list(name_tok(names[v]) for _, v, _ in items):
                 return ("decode-to-str-mismatch", f"decode_to_str() gave {f[4]}")
         return None
-    des = [_designated(it, n, pos) for it in items]
+    alias_names = {a for a, _ in names.aliases}
+    if op == "enc" and out.startswith("ALIASED"):
+        f = out.split()
+        return ("encoded-array-is-a-view-of-the-input",
+                f"the array encoded from {cont} held {f[1]}; after the INPUT array was overwritten in place it holds {f[2]}: what it "
+                f"decodes to is no longer what was encoded")
+    des = [_designated(it, n, pos, alias_names) for it in items]
     reasons = [d for d in des if isinstance(d, str)]
+    if "alias-name" in reasons and op == "enc":
+        # whether an ALIAS name counts as a member name is not decided by the statement (the code refuses it, the model
+        # mirrors that); what is decided: an encoded array never holds an index that designates no member
+        f = out.split()
+        if out != "ERR" and len(f) == 7 and f[1] == "own" and any(int(t) >= n for t in read_list(f[2])):
+            return ("encoded-index-out-of-range", f"{f[2]} with {n} members (input with an alias name)")
+        return None
+    if op == "cmp":
+        # values survive encoding: the encoded array compares equal to a member exactly where the element designates that
+        # member, two encoded arrays compare equal exactly where they hold the same member, the text forms show the members
+        kinds = {it[0] for it in items}
+        if reasons or not ((head in ("seq", "int", "str") and len(kinds) <= 1) or (head == "obj" and kinds <= {"m"})):
+            return None
+        how, other = extra
+        want = None
+        okind, _, obody = other.partition(":")
+        if how in ("eq", "ne") and okind == "x" and obody[0] == "m":
+            k = int(obody[1:])
+            want = "V:" + ("".join("T" if (d == k) == (how == "eq") else "F" for d in des) or "-")
+        elif how in ("eq", "ne") and okind == "E.own":
+            b = [int(t) for t in read_list(obody)]
+            if len(b) == len(des) and all(v < n for v in b):
+                want = "V:" + ("".join("T" if (d == v) == (how == "eq") else "F" for d, v in zip(des, b)) or "-")
+        elif how == "repr":
+            want = "R:" + show_list(des)
+        elif how == "str":
+            want = "R:" + show_list(name_tok(names[d]) for d in des)
+        if want is not None and out != want:
+            return ("operator-mismatch:" + how, f"{how} {other} on the encoding of {show_list(des)} gave {out}, expected {want}")
+        return None
     if op == "sel":
         kinds = {it[0] for it in items}
         if reasons or not ((head in ("seq", "int", "str") and len(kinds) <= 1) or (head == "obj" and kinds <= {"m"})):
@@ -395,25 +583,66 @@ def oracle(case: Case, out: str):
 
 def nontrivial(case: Case, out: str) -> bool:
     f = case.line.split()
-    return f[-1] != "-"
+    return (f[4] if f[1] == "cmp" else f[-1]) != "-"
 
 
 # --------------------------------------------------------------------------------------
 # generators
 
 
-def _mk(names, cont, items, claimed=True, tags=()):
-    line = f"enm enc {show_list(name_tok(s) for s in names)} {cont} {show_list(items)}"
-    return Case(line=line, claimed=claimed, tags=(cont,) + tuple(tags))
+def _mk(names, cont, items, claimed=True, tags=(), payload=None):
+    line = f"enm enc {names_field(names)} {cont} {show_list(items)}"
+    if payload is None and getattr(names, "decl", None) and any(str(it).startswith("m") for it in items):
+        payload = {"via_alias": True}           # members of an enumeration with aliases are fetched through an alias name
+    return Case(line=line, claimed=claimed, tags=(cont,) + tuple(tags) + (("aliases",) if getattr(names, "decl", None) else ()),
+                payload=payload)
 
 
 def _mkdec(names, idx, claimed=True, dtype=None):
-    line = f"enm dec {show_list(name_tok(s) for s in names)} {show_list(idx)}" + (f" {dtype}" if dtype else "")
+    line = f"enm dec {names_field(names)} {show_list(idx)}" + (f" {dtype}" if dtype else "")
     return Case(line=line, claimed=claimed, tags=("dec",) + ((dtype,) if dtype else ()))
 
 
+def _mkcmp(names, cont, items, how, other, claimed=True, tags=()):
+    line = f"enm cmp {names_field(names)} {cont} {show_list(items)} {how} {other}"
+    return Case(line=line, claimed=claimed, tags=("cmp", how, other.partition(":")[0]) + tuple(tags))
+
+
+def _simple_names(names) -> bool:
+    """names that numpy prints as they are, without blanks or quotes (the repr / str texts can be read back)"""
+    return all(nm.isascii() and nm.replace("_", "a").isalnum() for nm in names)
+
+
+def random_operand(rng: random.Random, n: int, length: int) -> str:
+    """a right operand for `==` / `!=`: mostly a member, otherwise every other kind of thing the code dispatches on"""
+    r = rng.random()
+    if r < 0.4:
+        return f"x:m{rng.randrange(n)}"
+    kind = rng.choice(["f", "g", "i", "i", "s", "o", "N", "C", "C", "L", "L", "B", "E", "E", "E"])
+    if kind in "fg":
+        return f"x:{kind}{rng.choice([0, n - 1, n, n + 1])}"
+    if kind == "i":
+        return f"x:i{rng.choice([0, n - 1, n, -1, 255, 256, 300, rng.randrange(n)])}"
+    if kind == "s":
+        return "x:s" + name_tok(rng.choice(["m0", "0", "zz"]))
+    if kind == "o":
+        return "x:o.float"
+    if kind == "N":
+        return "N"
+    if kind == "C":
+        return rng.choice(["C.own", "C.own", "C.twin", "C.foreign"])
+    ln = rng.choice([length, length, length, 1, 1, 0, length + 1, n + 2, rng.randint(0, 4)])
+    if kind == "L":
+        cont = rng.choice(["list", "tuple", "int8", "int64", "uint8"])
+        lo = 0 if cont == "uint8" else -1
+        return f"L.{cont}:" + show_list(rng.choice([lo, 0, n - 1, rng.randrange(n), n]) for _ in range(ln))
+    if kind == "B":
+        return f"B.{rng.choice(['str', 'strarr', 'mem', 'none'])}:{ln}"
+    return f"E.{rng.choice(['own', 'own', 'foreign'])}:" + show_list(rng.randrange(n) for _ in range(ln))
+
+
 def _mksel(names, cont, items, how, positions, tags=()):
-    line = f"enm sel {show_list(name_tok(s) for s in names)} {cont} {show_list(items)} {how} {show_list(positions)}"
+    line = f"enm sel {names_field(names)} {cont} {show_list(items)} {how} {show_list(positions)}"
     return Case(line=line, tags=("sel", how) + tuple(tags))
 
 
@@ -466,8 +695,45 @@ def gen_names(rng: random.Random, n: int) -> list:
     return names
 
 
+def with_aliases(rng: random.Random, names: list) -> Names:
+    """the enumeration `names` declared with 1-4 aliases: right after the first member (every later member is declared after an
+    alias), last, in the middle; several aliases of one value; an alias of the last member"""
+    n = len(names)
+    taken = set(names)
+    out = Names(names)
+    decl = list(names)
+    # position in the class body of each canonical member
+    def canon_pos(k):
+        return [j for j, e in enumerate(decl) if isinstance(e, str)][k]
+    shapes = rng.sample(["after-first", "last", "middle", "twice", "of-last"], rng.randint(1, 3))
+    count = 0
+    for shape in shapes:
+        nm = _safe(f"al{count}{rng.choice(['', 'x', 'Z', '_'])}")
+        while nm in taken:
+            nm += "q"
+        taken.add(nm)
+        count += 1
+        if shape == "after-first":
+            decl.insert(canon_pos(0) + 1, (nm, 0))
+        elif shape == "last":
+            decl.append((nm, rng.randrange(n)))
+        elif shape == "of-last":
+            decl.append((nm, n - 1))
+        elif shape == "middle":
+            k = rng.randrange(n)
+            decl.insert(rng.randint(canon_pos(k) + 1, len(decl)), (nm, k))
+        else:
+            k = rng.randrange(n)
+            nm2 = nm + "b"
+            taken.add(nm2)
+            decl.insert(rng.randint(canon_pos(k) + 1, len(decl)), (nm, k))
+            decl.insert(rng.randint(canon_pos(k) + 1, len(decl)), (nm2, k))
+    out.decl = decl
+    return out
+
+
 def unknown_names(rng: random.Random, names: list) -> list:
-    have = set(names)
+    have = set(names) | {a for a, _ in getattr(names, "aliases", [])}
     cands = ["", " ", "\U0010ffff", "zzz", "0"]
     for s in rng.sample(names, min(4, len(names))):
         cands += [s + "x", s + " ", s[:-1], s.swapcase(), s + s, " " + s, s[:-1] + chr(ord(s[-1]) + 1),
@@ -500,12 +766,19 @@ def cases_for_enum(rng: random.Random, names: list, budget: int) -> list:
             items.insert(rng.choice([0, len(items), rng.randint(0, len(items))]), b)
         return items
 
+    aliased = [a for a, _ in getattr(names, "aliases", [])]
     while len(out) < budget:
+        if aliased and rng.random() < 0.15:
+            # an alias NAME among valid names (the code refuses it like an unknown name; not claimed either way)
+            good = ["s" + name_tok(names[i]) for i in idxs(rng.choice([0, 1, 2, 4]))]
+            out.append(_mk(names, rng.choice(["seq.list", "seq.tuple", "str.arr"]),
+                           spoil(good, ["s" + name_tok(a) for a in rng.sample(aliased, min(2, len(aliased)))]), tags=("alias-name",)))
+            continue
         if n > 200:
-            cat = rng.choice(["names", "ints", "members", "badname", "badint", "sel", "dec"])
+            cat = rng.choice(["names", "ints", "members", "badname", "badint", "sel", "dec", "cmp"])
         else:
             cat = rng.choice(["names"] * 4 + ["ints"] * 4 + ["members"] * 3 + ["badname"] * 3 + ["badint"] * 5 +
-                             ["foreign"] * 3 + ["mixed"] * 2 + ["other"] * 2 + ["sel"] * 3 +
+                             ["foreign"] * 3 + ["mixed"] * 2 + ["other"] * 2 + ["sel"] * 3 + ["cmp"] * 6 +
                              ["empty", "enc", "bool", "bigint", "dec", "dec", "twin", "zd"])
         if cat == "names":
             cont = rng.choice(["seq.list", "seq.tuple", "seq.deque", "str.arr", "str.arr", "str.wide", "str.strided"])
@@ -535,6 +808,37 @@ def cases_for_enum(rng: random.Random, names: list, budget: int) -> list:
                 cont, items = rng.choice(["seq.list", "obj.arr"]), [f"m{i}" for i in ix]
             how = rng.choice(SELECTIONS)
             out.append(_mksel(names, cont, items, how, positions_of(how, len(ix), rng), tags=(kind,)))
+        elif cat == "cmp":
+            kind = rng.choice(["names", "ints", "members", "members", "empty", "enc", "encf"])
+            ix = idxs(rng.choice([1, 1, 2, 3, 4, 5, 8, min(n, 30)]))
+            if kind == "names":
+                cont, items = rng.choice(["seq.list", "str.arr"]), ["s" + name_tok(names[i]) for i in ix]
+            elif kind == "ints":
+                cont, items = rng.choice(["seq.list", "int." + _dtype_holding(rng, max(ix))]), [f"i{i}" for i in ix]
+            elif kind == "members":
+                cont, items = rng.choice(["seq.list", "obj.arr"]), [f"m{i}" for i in ix]
+            elif kind == "empty":
+                cont, items, ix = rng.choice(["seq.list", "int.int64", "str.arr"]), [], []
+            elif kind == "enc":
+                cont, items = "enc.own", [f"i{i}" for i in ix]
+            else:
+                cont, items = "enc.foreign", [f"i{rng.randrange(n + 2)}" for _ in ix]
+            r = rng.random()
+            if r < 0.12:
+                how, other = rng.choice(FORBIDDEN), rng.choice(["x:i1", f"x:m{rng.randrange(n)}", "E.own:" + show_list(ix), "N"])
+            elif r < 0.22 and _simple_names(names) and len(ix) <= 200:
+                how, other = rng.choice(["repr", "str"]), "-"
+            else:
+                how, other = rng.choice(["eq", "eq", "ne"]), random_operand(rng, n, len(ix))
+                if other.startswith("C.") and kind in ("names", "ints", "members") and rng.random() < 0.6:
+                    # comparison with a class: an array as long as its greatest index + 1 (numpy can broadcast), or of length 1
+                    ln = rng.choice([1, rng.randint(1, min(n, 6)), rng.randint(1, min(n, 30))])
+                    ix = [rng.randrange(ln) for _ in range(ln - 1)] + [ln - 1] if rng.random() < 0.8 else [rng.randrange(n)]
+                    rng.shuffle(ix)
+                    items = [{"names": "s" + name_tok(names[i]), "ints": f"i{i}", "members": f"m{i}"}[kind] for i in ix]
+                    if cont.startswith("int."):
+                        cont = "int.int64"
+            out.append(_mkcmp(names, cont, items, how, other, claimed=kind != "encf", tags=(kind,)))
         elif cat == "zd":
             what = rng.choice(["int", "int", "badint", "str", "obj", "float"])
             if what == "int":
@@ -644,6 +948,8 @@ def generate(rng: random.Random, tier: str):
         if rng.random() < 0.015:
             n = rng.choice([201, 255, 256, 257, 300])
         names = gen_names(rng, n)
+        if rng.random() < 0.15:
+            names = with_aliases(rng, names)
         out += cases_for_enum(rng, names, per_enum)
     return out[:total]
 
@@ -662,6 +968,7 @@ def _elem_universe(names: list) -> list:
 def enumerate_thorough():
     out = []
     base = ["b", "a", "d", "c"]
+    rng_ops = random.Random(151)
     for n in range(1, 5):
         names = base[:n]
         uni = _elem_universe(names)
@@ -699,6 +1006,48 @@ def enumerate_thorough():
                 if L:
                     for how in sorted(set(SELECTIONS)):
                         out.append(_mksel(names, "obj.arr", [f"m{v}" for v in combo], how, positions_of(how, L, rsel), tags=("enum",)))
+        # operators: every encoded array of length <= 3 x every operand of a small universe
+        operands = (["N", "C.own", "C.twin", "C.foreign", "x:o.float", "x:s" + name_tok(names[0]), "x:i-1", f"x:i{n}", f"x:f0", f"x:f{n}", "x:g0"] +
+                    [f"x:m{k}" for k in range(n)] + [f"x:i{k}" for k in range(n)] +
+                    ["L.list:-", "L.list:0", "L.tuple:0,0", "L.int8:0,-1", f"L.int64:{n - 1},0,0", "L.list:0,1,2,3", "B.str:1", "B.strarr:2", "B.mem:3", "B.none:0",
+                     "E.own:-", "E.own:0", f"E.own:{n - 1},0", "E.own:0,0,0", f"E.foreign:{n}", "E.foreign:0,1"])
+        for L in range(0, 4):
+            for combo in itertools.product(range(n), repeat=L):
+                items = [f"m{v}" for v in combo]
+                for other in operands:
+                    out.append(_mkcmp(names, "seq.list", items, "eq", other, tags=("enum",)))
+                    out.append(_mkcmp(names, "obj.arr", items, "ne", other, tags=("enum",)))
+                for how in FORBIDDEN:
+                    out.append(_mkcmp(names, "seq.list", items, how, rng_ops.choice(operands), tags=("enum",)))
+                out.append(_mkcmp(names, "seq.list", items, "repr", "-", tags=("enum",)))
+                out.append(_mkcmp(names, "seq.list", items, "str", "-", tags=("enum",)))
+        # the enumeration declared with aliases: every placement of one alias, and of two aliases, in the class body
+        if n <= 3:
+            decls = []
+            for p1 in range(1, n + 1):                   # an alias declared after p1 canonical members
+                for t1 in range(p1):
+                    decls.append([(p1, t1)])
+                    for p2 in range(p1, n + 1):
+                        for t2 in range(p2):
+                            decls.append([(p1, t1), (p2, t2)])
+            for spec in decls:
+                an = Names(names)
+                decl = []
+                for k in range(n + 1):
+                    decl += [(f"al{j}", t) for j, (p_, t) in enumerate(spec) if p_ == k]
+                    if k < n:
+                        decl.append(names[k])
+                an.decl = decl
+                strs = ["s" + name_tok(s) for s in names] + ["s" + name_tok(a) for a, _ in an.aliases] + ["s" + name_tok("zz")]
+                for L in range(1, 3):
+                    for combo in itertools.product(strs, repeat=L):
+                        out.append(_mk(an, rng_ops.choice(["seq.list", "str.arr"]), combo, tags=("enum",)))
+                    for combo in itertools.product(range(n), repeat=L):
+                        out.append(_mk(an, rng_ops.choice(["seq.list", "obj.arr"]), [f"m{v}" for v in combo], tags=("enum",)))
+                        out.append(_mkdec(an, list(combo)))
+                        out.append(_mkcmp(an, "seq.list", [f"m{v}" for v in combo], "eq", f"x:m{combo[0]}", tags=("enum",)))
+                    for combo in itertools.product(range(-1, n + 1), repeat=L):
+                        out.append(_mk(an, rng_ops.choice(["seq.list", "int.int8", "int.uint64"]), [f"i{v}" for v in combo if v >= 0 or True], tags=("enum",)))
         for item in _elem_universe(names):
             out.append(_mk(names, "zd." + {"i": "int64", "s": "str", "m": "obj", "f": "obj", "o": "float64"}[item[0]], [item], tags=("enum",)))
         for k in range(n):
@@ -758,6 +1107,72 @@ def corpus():
         _mksel(three, "int.int8", ["i2", "i1", "i0"], "slice_1_n_n", [1, 2]),
         _mksel(three, "int.int8", ["i2", "i1", "i0"], "view", [0, 1, 2]),
         _mksel(three, "int.int8", ["i2", "i1", "i0"], "item0d", [1]),
+        # aliases: A = 'first'; B = 'first' (alias of A); C; D; E -- the members are A, C, D, E with indices 0..3
+    ] + _alias_corpus() + [
+        # operators (what formulas write: housing == Housing.owner)
+        _mkcmp(three, "seq.list", ["s63", "s61", "s63"], "eq", "x:m2"),
+        _mkcmp(three, "seq.list", ["s63", "s61", "s63"], "ne", "x:m2"),
+        _mkcmp(three, "seq.list", ["s63", "s61", "s63"], "eq", "x:f2"),
+        _mkcmp(three, "seq.list", ["s63", "s61", "s63"], "eq", "x:g2"),
+        _mkcmp(three, "seq.list", ["s63", "s61", "s63"], "eq", "x:i2"),
+        _mkcmp(three, "seq.list", ["s63", "s61", "s63"], "eq", "x:s63"),
+        _mkcmp(three, "seq.list", ["s63", "s61", "s63"], "eq", "C.own"),
+        _mkcmp(three, "seq.list", ["s63", "s61", "s62"], "ne", "C.own"),
+        _mkcmp(three, "seq.list", ["s61"], "eq", "C.own"),
+        _mkcmp(three, "seq.list", ["s63", "s61", "s63"], "eq", "C.twin"),
+        _mkcmp(three, "seq.list", ["s63", "s61", "s63"], "eq", "C.foreign"),
+        _mkcmp(three, "seq.list", ["s63", "s61", "s63", "s61", "s61"], "ne", "C.foreign"),
+        _mkcmp(three, "seq.list", [], "eq", "C.own"),
+        _mkcmp(three, "seq.list", ["s63", "s61", "s63"], "eq", "N"),
+        _mkcmp(three, "seq.list", ["s63", "s61", "s63"], "ne", "N"),
+        _mkcmp(three, "seq.list", ["s63", "s61", "s63"], "eq", "L.list:2,1,2"),
+        _mkcmp(three, "seq.list", ["s63", "s61", "s63"], "eq", "L.list:2,1"),
+        _mkcmp(three, "seq.list", ["s63", "s61", "s63"], "eq", "L.int8:2"),
+        _mkcmp(three, "seq.list", ["s63", "s61", "s63"], "eq", "B.mem:3"),
+        _mkcmp(three, "seq.list", ["s63", "s61", "s63"], "eq", "B.str:2"),
+        _mkcmp(three, "seq.list", ["s63", "s61", "s63"], "eq", "E.own:2,2,2"),
+        _mkcmp(three, "seq.list", ["s63", "s61", "s63"], "eq", "E.foreign:2,4,2"),
+        _mkcmp(three, "seq.list", ["s63", "s61", "s63"], "ne", "E.own:1"),
+        _mkcmp(three, "seq.list", ["s63", "s61", "s63"], "repr", "-"),
+        _mkcmp(three, "seq.list", ["s63", "s61", "s63"], "str", "-"),
+    ] + [_mkcmp(three, "seq.list", ["s63", "s61"], how, "x:i1") for how in FORBIDDEN] + [
+        _mkcmp(three, "obj.arr", ["m2", "m1"], how, "E.own:2,1") for how in FORBIDDEN]
+    return out
+
+
+def _alias_corpus():
+    an = Names(["A", "C", "D", "E"])
+    an.decl = ["A", ("B", 0), "C", "D", "E"]
+    last = Names(["b", "a", "c"])
+    last.decl = ["b", "a", "c", ("z", 2)]
+    several = Names(["b", "a", "c"])
+    several.decl = ["b", ("b1", 0), ("b2", 0), "a", ("a1", 1), "c", ("b3", 0)]
+    S = lambda *xs: ["s" + name_tok(x) for x in xs]
+    out = [
+        _mk(an, "seq.list", S("E", "D", "C", "A", "A", "C")),
+        _mk(an, "str.arr", S("E", "D", "C", "A")),
+        _mk(an, "seq.list", ["m3", "m2", "m1", "m0", "m0", "m1"]),
+        _mk(an, "obj.arr", ["m3", "m2", "m1", "m0"]),
+        _mk(an, "seq.list", ["m0", "m1"], payload={}),                     # fetched by their own names
+        _mk(an, "seq.list", ["i3", "i2", "i1", "i0"]),
+        _mk(an, "int.uint8", ["i3", "i0"]),
+        _mk(an, "seq.list", ["i0", "i4"]),
+        _mk(an, "seq.list", S("C")),
+        _mk(an, "seq.list", S("B")),                                        # an alias name
+        _mk(an, "seq.list", S("A", "B")),
+        _mkdec(an, [3, 2, 1, 0]),
+        _mkcmp(an, "seq.list", S("E", "C", "E"), "eq", "x:m3"),
+        _mksel(an, "seq.list", S("E", "D", "C", "A"), "rev", [3, 2, 1, 0]),
+        _mk(last, "seq.list", S("c", "a", "b")),
+        _mk(last, "seq.list", S("z")),                                      # an alias declared last
+        _mk(last, "str.arr", S("c", "z")),
+        _mk(last, "seq.list", ["m2", "m0"]),
+        _mk(several, "seq.list", S("c", "a", "b")),
+        _mk(several, "seq.list", ["m2", "m1", "m0"]),
+        _mk(several, "obj.arr", ["m1", "m2"]),
+        _mk(several, "seq.list", S("b3", "c")),
+        _mk(several, "seq.list", ["i2", "i1", "i0"]),
+        _mk(several, "seq.list", ["i3"]),
     ]
     return out
 
@@ -790,12 +1205,25 @@ PROP = Prop(
     rule=("lines `enm enc <names> <container> <items>`: real Enum subclasses of 1..200 members created with "
           "Enum(name, {...}) (sizes drawn from a boundary pool 1,2,3,...,127,128,129,199,200 and uniformly; names m<k> "
           "shuffled, random 1-4 character names over an alphabet with upper/lower case, digits, blank, '-', accented, Greek, "
-          "CJK and astral characters, prefix chains, sorted and reverse-sorted declaration orders); 24 inputs per "
+          "CJK and astral characters, prefix chains, sorted and reverse-sorted declaration orders); 15% of the enumerations are "
+          "DECLARED WITH ALIASES (1-4 more names bound to an already used value: right after the first member, last, in the middle, "
+          "several aliases of one value, an alias of the last member; members then fetched through an alias name E[alias], "
+          "and alias NAMES given as input: refused by the code, mirrored by the model, not claimed); 24 inputs per "
           "enumeration: lists, tuples, numpy arrays of the eight integer dtypes, str_ and object arrays of valid names / "
           "indices / members (lengths 1..60), near-miss unknown names, integers from -130..300 plus dtype limits and "
           "n, n+1, 255, 256, members of a second enumeration (all / after an own first element / first / in the middle), "
           "mixed kinds, unsupported element types and dtypes, empty inputs of every container, EnumArrays. Compared: the "
-          "encoded indices or ERR, decode(), decode_to_str(), encode(result), encode(asarray(result)). A case is "
+          "encoded indices or ERR, decode(), decode_to_str(), encode(result), encode(asarray(result)); after these observations a "
+          "numpy INPUT array is overwritten in place (integers + 1, names emptied, objects set to None) and the encoded array is "
+          "read again: it must still hold what was encoded (not be a view of its input). 15% of the inputs are "
+          "`enm cmp` lines: an operator of EnumArray applied to the encoded array (of names / indices / members, empty, a hand-made "
+          "EnumArray, an EnumArray of another enumeration): == and != against a member (own, of a same-name twin, of another "
+          "enumeration), an int (in and out of range, negative, 255, 256, 300), a str, a float, None, the enumeration class (own / twin / "
+          "other; arrays as long as their greatest index + 1 so that numpy can broadcast), lists / tuples / int8 / int64 / uint8 arrays of "
+          "integers of equal, unit, zero and mismatching lengths, lists of strings / members / None, EnumArrays of either enumeration; "
+          "the eight forbidden operators (+ * < <= > >= & |) with every kind of operand; repr() and str() read back into members / names "
+          "(enumerations with plain ASCII names). Oracle on these: == / != against an own member and against an own EnumArray of the same "
+          "length is the pointwise test on the designated members; repr / str show the designated members. A case is "
           "non-trivial when the input is not empty; distinct = distinct protocol lines."),
     assumptions=[
         "numpy primitives used by the code (asarray, boolean mask, isin, argsort, searchsorted, astype, fancy indexing) are modelled (filter / insertion sort / leftmost binary search / list indexing), tied by this correspondence",
@@ -803,6 +1231,8 @@ PROP = Prop(
         "claim domain: valid inputs, and whether an invalid input errs (not which error class); hand-made EnumArrays, EnumArrays of another enumeration, bool elements and integers beyond 64 bits are answered but not binding",
         "the class test cls == item.__class__ compares classes by the identity of their name (EnumType.__eq__): the foreign enumeration F has another class name; a different enumeration declared under the same name is finding F-C15b",
         "strings are compared by code point (numpy str_ order); names never end with NUL",
+        "aliases: the members of an enumeration are its canonical members (Python's enum semantics: a second name bound to a used value creates no member); whether an alias NAME is a 'valid member name' for encode is not decided by the statement: the code refuses it, the model mirrors it, the oracle only requires that no index outside the members is produced",
+        "operators: numpy's broadcasting of 1-d operands and its element-wise comparison of an integer array with integers / strings / objects are modelled (bcastEq, bcastLen); an EnumArray without possible_values, 0-d EnumArrays and the reflected / non-forbidden arithmetic operators (1 + a, a - 1, ~a) are not modelled",
     ],
     exhaustive_note=("thorough: every enumeration size n <= 4 and every list / object array of length <= 3 over the element "
                      "universe {-1..n, every name, an unknown name, every member, two foreign members, a float}; every "
